@@ -1,12 +1,12 @@
 SPECIFICATION GenSpec
 CONSTANTS
   Dirs <- GenDirs
-  TypeEncs <- GenTypeEncs
+  TypeEncs <- GenTypeEncsQuick
   Maxes <- GenMaxesQuick
   Methods <- GenMethodsQuick
   Shardings <- GenShardings
-  CfgSpace <- GenCfgQuick
-  MaxLen = 6
+  CfgSpace <- GenCfg
+  MaxLen = 5
   AioForwardsMethod = TRUE
   CopyInfoLayout = "byInfo"
 VIEW GenView
